@@ -339,6 +339,31 @@ pub fn exec(tag: i64, inp: &[i64]) -> Vec<i64> {
             Some(Ok(b)) => vec![1, b as i64],
             Some(Err(_)) => vec![0, NONE],
         },
+        14 => with_kind!(inp[0], inp[1], inp[2], inp[3], m => {
+            // every way from any implementor to the structured form and back to a raw message;
+            // each conversion is its own monitored call
+            fn b3(r: Option<(u8, U7, U7)>) -> [i64; 3] {
+                match r {
+                    Some((x, y, z)) => [x as i64, y.get() as i64, z.get() as i64],
+                    None => [PANIC; 3],
+                }
+            }
+            let mut o = Vec::new();
+            o.extend_from_slice(&b3(region(|| m.to_structured().to_bytes())));
+            o.extend_from_slice(&b3(region(|| m.to_other::<StructuredShortMessage>().to_bytes())));
+            o.extend_from_slice(&b3(region(|| StructuredShortMessage::from_other(&m).to_bytes())));
+            match region(|| m.to_structured()) {
+                None => o.extend_from_slice(&[PANIC; 7]),
+                Some(s) => {
+                    o.extend_from_slice(&b3(region(|| RawShortMessage::from_other(&s).to_bytes())));
+                    o.extend_from_slice(&b3(region(|| s.to_other::<RawShortMessage>().to_bytes())));
+                    o.push(r1(|| (s.to_other::<RawShortMessage>().to_structured() == s
+                        && StructuredShortMessage::from_other(&s) == s
+                        && s.to_structured() == s) as i64));
+                }
+            }
+            o
+        }),
         20 => with_kind!(inp[0], inp[1], inp[2], inp[3], m => {
             // method syntax on the concrete type, then whether the generic (trait) path agrees
             let mut o = acc_obs_m!(m);
@@ -464,6 +489,10 @@ pub fn gen_c01(tier: Tier, seed: u64, em: &mut Emitter) {
     let mut r = Rng::new(seed ^ 0xC01);
     for &k in &KINDS {
         triples(tier, &mut r, 0, &mut |s, a, b, key| em.emit_k(key, 10, vec![k, s, a, b]));
+    }
+    // conversions between the representations (to_structured, to_other, from_other, and back)
+    for &k in &KINDS {
+        triples(tier, &mut r, 128, &mut |s, a, b, key| em.emit_k(&format!("conversions/{}", key), 14, vec![k, s, a, b]));
     }
     // every StructuredShortMessage value (quick: all variants, full sweep of one field at a time)
     let full = tier == Tier::Thorough;
